@@ -104,12 +104,12 @@ CHECKS = {
     "C14": dict(level="fault_enumeration", exhaustive_note="every fault position k of each generated (state, operation) pair", parts=[
         dict(prop="REG", harness="api_pbt", quick=dict(count=0, workers=1), thorough=dict(count=0, workers=1)),  # regression scenarios
         dict(prop="C14", harness="api_pbt", quick=dict(count=2400, workers=8), thorough=dict(count=80000, workers=16),
-             essential=_ALL_SCHEMAS + ["W>=2", "k>=2", "read-fault"] + [f + m for f in ("1.x:", "2.x:") for m in
+             essential=_ALL_SCHEMAS + ["W>=2", "k>=2", "read-fault", "raw-tables-compared"] + [f + m for f in ("1.x:", "2.x:") for m in
                  ["create_track", "update", "remove_track"] + ["set_" + x for x in _SETTERS] +
                  ["create_root_crate", "create_sub_crate", "create_root_crate_after", "create_sub_crate_after", "set_name", "set_parent",
                   "add_track(track)", "add_track(id)", "crate::remove_track", "clear_tracks", "remove_crate"]]),
         dict(prop="C14.table", harness="table_pbt", quick=dict(count=640, workers=8), thorough=dict(count=30000, workers=16),
-             essential=_V2_SCHEMAS + ["W>=2", "k>=2", "read-fault"] + ["table:" + m for m in
+             essential=_V2_SCHEMAS + ["W>=2", "k>=2", "read-fault", "raw-tables-compared"] + ["table:" + m for m in
                  ["playlist.add", "playlist.update", "playlist.move", "playlist.remove", "entity.add_back", "entity.remove", "entity.clear",
                   "track.add", "track.update", "track.remove", "track.set_column", "change_log.add", "information.played_indicator"]] +
                  ["W>=2:playlist.move", "W>=2:playlist.remove", "W>=2:entity.add_back", "W>=2:track.remove"])]),
@@ -118,7 +118,7 @@ CHECKS = {
         dict(prop="C15", harness="api_pbt", quick=dict(count=6000, workers=8), thorough=dict(count=250000, workers=16),
              essential=_ALL_SCHEMAS + [f + x for f in ("1.x:", "2.x:") for x in (
                  "hot_cue_at(bad)", "set_hot_cue_at(bad)", "loop_at(bad)", "set_loop_at(bad)", "set_hot_cues(hostile)", "set_loops(hostile)",
-                 "set_sample_rate(hostile)", "set_bpm(hostile)", "set_beatgrid(hostile)", "hostile-snapshot", "add_track(nonexistent id)",
+                 "set_sample_rate(hostile)", "set_bpm(hostile)", "set_beatgrid(hostile)", "hostile-snapshot", "add_track(nonexistent id)", "remove_track(nonexistent id entry)",
                  "crate_by_id(any)", "track_by_id(any)", "create_sub_crate_after(foreign)", "create_root_crate_after(foreign)",
                  "removed-crate-handle", "removed-track-handle", "set_name(odd)", "create_root_crate(odd)", "lookups(odd)", "set_parent(descendant)")] +
                        ["cycle-attempt", "helpers(extreme)"])]),
@@ -169,7 +169,8 @@ CHECKS = {
         dict(prop="REG", harness="api_pbt", quick=dict(count=0, workers=1), thorough=dict(count=0, workers=1)),  # regression scenarios
         dict(prop="C18", harness="table_pbt", quick=dict(count=2400, workers=8), thorough=dict(count=80000, workers=16),
              essential=_V2_SCHEMAS + ["column-range=0", "column-range=1", "column-range=2", "row>=40-populated", "add", "update", "remove",
-                                      "nonexistent-row", "unsupported-column", "origin:fix-up"] +
+                                      "nonexistent-row", "unsupported-column", "origin:fix-up", "collision:rejected", "collision:add:path", "collision:update:path",
+                                      "collision:set:path", "collision:set:origin", "collision:update:origin"] +
                        ["set_" + c for c in ["play_order", "length", "bpm", "year", "path", "filename", "bitrate", "bpm_analyzed", "album_art_id",
                         "file_bytes", "title", "artist", "album", "genre", "comment", "label", "composer", "remixer", "key", "rating",
                         "album_art", "time_last_played", "is_played", "file_type", "is_analyzed", "date_created", "date_added",
